@@ -93,6 +93,29 @@ MUTANTS = [
         sym_tag_to_int_tag, next_tag = _local
 """),
          needs="two ranks whose local tag orders differ"),
+    dict(id="c09-tags-numbered-from-set-on-every-rank", prop="C09",
+         file="distributed/tags.py",
+         old="""    if mpi_communicator.rank == root_rank:
+        sym_tag_to_int_tag = {}""",
+         new="""    all_tags = mpi_communicator.bcast(all_tags, root=root_rank)
+    if True:
+        sym_tag_to_int_tag = {}
+        next_tag = base_tag
+        for sym_tag in set(flatten(all_tags)):
+            if sym_tag not in sym_tag_to_int_tag:
+                sym_tag_to_int_tag[sym_tag] = next_tag
+                next_tag += 1
+        _mine = (sym_tag_to_int_tag, next_tag)
+    if mpi_communicator.rank == root_rank:
+        sym_tag_to_int_tag = {}""",
+         new2=("""    from dataclasses import replace
+    return DistributedGraphPartition(""",
+               """    sym_tag_to_int_tag, next_tag = _mine
+    from dataclasses import replace
+    return DistributedGraphPartition("""),
+         needs="ranks running in interpreters with DIFFERENT hash seeds: every "
+               "rank numbers the same broadcast tag list through its own set "
+               "order (consistent when all ranks share one interpreter)"),
     dict(id="c09-next-tag-off-by-one-on-root", prop="C09",
          file="distributed/tags.py",
          old="        mpi_communicator.bcast((sym_tag_to_int_tag, next_tag), root=root_rank)",
